@@ -174,6 +174,17 @@ def systematic(rng):
     P(G.assign("gA", {"k": "try", "body": [M(n(1)), E(n(3))], "handler": [M(n(2)), E(n(4))]}), M(v("gA")))
     P(G.assign("gA", {"k": "try", "body": [E(G.call([E(G.call([{"k": "throw", "x": n(7)}])), M(n(2))])), M(n(3))], "handler": [E(v("_exception"))]}), M(v("gA")))
     P(G.assign("gA", {"k": "try", "body": [{"k": "foreach", "body": [M(v("_x")), {"k": "throw", "x": v("_x")}], "arr": A(n(4), n(5))}, M(n(3))], "handler": [E(v("_exception"))]}), M(v("gA")))
+    # an exception thrown by a handler belongs to the next try further out
+    P(G.assign("gA", {"k": "try", "body": [E({"k": "try", "body": [M(n(1)), {"k": "throw", "x": n(7)}], "handler": [M(v("_exception")), {"k": "throw", "x": G.binop("+", v("_exception"), n(1))}, M(n(2))]}), M(n(3))],
+                      "handler": [M(v("_exception")), E(G.binop("*", v("_exception"), n(2)))]}), M(v("gA")))
+    P(G.assign("gA", {"k": "try", "body": [E(G.call([E({"k": "try", "body": [{"k": "throw", "x": n(1)}], "handler": [E(G.call([{"k": "throw", "x": n(2)}]))]})])), M(n(3))], "handler": [E(v("_exception"))]}), M(v("gA")))
+    # breakOut with value while operands of the left scopes are pending
+    P(M(G.binop("+", n(1), G.call([{"k": "scopename", "s": "s"}, E(G.binop("+", n(5), G.call([{"k": "breakout", "s": "s", "x": n(9)}])))]))))
+    P(M(A(n(0), G.call([{"k": "scopename", "s": "s"}, E(A(n(1), n(2), G.call([E(G.binop("-", n(4), G.call([{"k": "breakout", "s": "s", "x": n(9)}])))])))]))))
+    # the body rebinds its own _x
+    for kind in ("fselect", "fapply", "fcount", "ffindif"):
+        P(M({"k": kind, "arr": A(n(1), n(-3), n(4)), "body": [G.assign("_x", G.binop("*", v("_x"), v("_x"))), E(G.binop(">", v("_x"), n(2)) if kind != "fapply" else v("_x"))]}))
+    P({"k": "foreach", "body": [G.assign("_x", G.binop("+", v("_x"), n(10))), M(A(v("_x"), v("_forEachIndex")))], "arr": A(n(1), n(2))}, M(n(9)))
     # scopeName / breakOut
     P(G.assign("gA", G.call([{"k": "scopename", "s": "s"}, M(n(1)), E(G.call([M(n(2)), {"k": "breakout", "s": "s", "x": n(7)}, M(n(3))])), M(n(4)), E(n(8))])), M(v("gA")))
     P(G.assign("gA", G.call([{"k": "scopename", "s": "s"}, E(G.call([E(G.call([{"k": "breakout", "s": "s", "x": n(7)}])), M(n(3))])), M(n(4)), E(n(8))])), M(v("gA")))
